@@ -47,12 +47,27 @@ def _schedule(fn):
     if len(whiles) != 2:
         return None, f'{len(whiles)} while loops (expected the outer loop over p and the inner loop over d)'
     outer, inner = whiles
-    if not (isinstance(outer.test, ast.Name) and isinstance(inner.test, ast.Name)):
+
+    def loop_var(w):
+        """`while v:` -> v;  `while True: ...; if not v: break` -> v  (the same loop when v is nonzero on entry, which the enclosing
+        `while p:` / the initialisation d = p guarantees for this schedule)"""
+        if isinstance(w.test, ast.Name):
+            return w.test.id
+        if isinstance(w.test, ast.Constant) and w.test.value is True and w.body and isinstance(w.body[-1], ast.If) and not w.body[-1].orelse \
+                and len(w.body[-1].body) == 1 and isinstance(w.body[-1].body[0], ast.Break):
+            t = w.body[-1].test
+            if isinstance(t, ast.UnaryOp) and isinstance(t.op, ast.Not) and isinstance(t.operand, ast.Name):
+                return t.operand.id
+            if isinstance(t, ast.Compare) and len(t.ops) == 1 and isinstance(t.ops[0], ast.Eq) and isinstance(t.left, ast.Name) and const_int(t.comparators[0]) == 0:
+                return t.left.id
+        return None
+    pv, dv = loop_var(outer), loop_var(inner)
+    if pv is None or dv is None:
         return None, 'loop tests are not the schedule variables p and d'
-    roles[outer.test.id] = 'P'
-    roles[inner.test.id] = 'D'
+    roles[pv] = 'P'
+    roles[dv] = 'D'
     tups = [s for s in iter_nodes(node) if isinstance(s, ast.Assign) and isinstance(s.targets[0], ast.Tuple) and len(s.targets[0].elts) == 3
-            and all(isinstance(x, ast.Name) for x in s.targets[0].elts) and s.targets[0].elts[0].id == inner.test.id]
+            and all(isinstance(x, ast.Name) for x in s.targets[0].elts) and s.targets[0].elts[0].id == dv]
     if len(tups) != 2:
         return None, 'the two updates of (d, q, r) were not found'
     roles[tups[0].targets[0].elts[1].id] = 'Q'
@@ -63,7 +78,7 @@ def _schedule(fn):
             out['init ' + roles[s.targets[0].id]] = _ren(s.value, roles)
     out['enter inner'] = _ren(tups[0].value, roles)
     out['step inner'] = _ren(tups[1].value, roles)
-    step = [s for s in outer.body if isinstance(s, ast.AugAssign) and isinstance(s.target, ast.Name) and s.target.id == outer.test.id]
+    step = [s for s in outer.body if isinstance(s, ast.AugAssign) and isinstance(s.target, ast.Name) and s.target.id == pv]
     out['step outer'] = (type(step[0].op).__name__ + ' ' + _ren(step[0].value, roles)) if step else '?'
     # the index set: `for i in range(n - d): if i & p == r`  |  (i for i in range(n - d) if i & p == r)
     idx = None
@@ -158,15 +173,16 @@ def rule_SN2(ctx, rep):
     pmb = parents(fb.node)
     ups = [c for c in iter_nodes(fb.node) if isinstance(c, ast.Call) and attr_tail(c.func) == 'np_update']
     reads = {}
+    from .rules_ss import _xp_arith
     for s in iter_nodes(fb.node):
         if isinstance(s, ast.Assign) and isinstance(s.value, ast.Subscript) and isinstance(s.targets[0], ast.Name) and isinstance(s.value.slice, ast.Tuple):
-            reads[s.targets[0].id] = norm(s.value.slice.elts[-1])
+            reads[s.targets[0].id] = norm(_xp_arith(fb, s.value.slice.elts[-1], s, pmb))
     good, why = False, 'unrecognised compare-exchange in np_sort'
     if len(ups) == 2 and len(reads) >= 2:
         w = {}
         for u in ups:
             if len(u.args) == 3 and isinstance(u.args[1], ast.Tuple):
-                w[norm(u.args[1].elts[-1])] = u.args[2]
+                w[norm(_xp_arith(fb, u.args[1].elts[-1], u, pmb))] = u.args[2]
         lo_idx = [k for k in w if '+' not in k]
         hi_idx = [k for k in w if '+' in k]
         if len(lo_idx) == 1 and len(hi_idx) == 1:
@@ -191,7 +207,7 @@ def rule_SN2(ctx, rep):
                 elif not (isinstance(hl, ast.BinOp) and isinstance(hl.op, ast.Mult)):
                     why = 'h is not <condition> * (hi - lo)'
                 else:
-                    a, b = hl.left, hl.right
+                    a, b = _one_level(fb, hl.left, ups[0], pmb), _one_level(fb, hl.right, ups[0], pmb)
                     if not isinstance(a, ast.Compare):
                         a, b = b, a
                     c = _less(a)
@@ -387,18 +403,36 @@ def rule_SN6(ctx, rep):
         sw = [c for c in iter_nodes(loops[0]) if isinstance(c, ast.Call) and attr_tail(c.func) == 'if_swap' and len(c.args) == 3]
         if cnt_ok and len(sw) == 1:
             st = astq.enclosing_stmt(sw[0], pm)
-            c = _less(routes.xp(fn, _one_level(fn, sw[0].args[0], st, pm), st, pm))
-            X, Y = [norm(routes.xp(fn, a, st, pm)) for a in sw[0].args[1:]]
-            tg = [norm(t) for t in st.targets[0].elts] if isinstance(st, ast.Assign) and isinstance(st.targets[0], ast.Tuple) else []
             iv = norm(loops[0].target)
-            # if_swap(c, X, Y): first := Y if c else X.  first position must be the lower index i and receive the smaller element
-            if c is not None and tg == [f'x[{iv}]', f'x[-1 - {iv}]'] and {X, Y} == set(tg):
-                L, R, strict = c
-                # c: key(L) < key(R) (or <=).  first gets Y when c: need Y <= X, i.e. Y == L and X == R
-                okp = (Y == L and X == R) or (Y == L and X == R)
-                if not okp and X == L and Y == R:
-                    # written as a >= b mirrored: c = key(R') <= key(L') ... handled by _less orientation
-                    okp = False
+            from .linform import Lin, to_lin
+
+            def pos_of(e):
+                """canonical position of `x[<index>]` within the list of length n: 'lo' for i, 'hi' for n-1-i (also written -1-i)"""
+                from .rules_ss import _xp_arith
+                e = _one_level(fn, e, st, pm)
+                if not (isinstance(e, ast.Subscript) and isinstance(e.value, ast.Name)):
+                    return None
+                l = to_lin(_xp_arith(fn, e.slice, st, pm), {}, opaque=False)
+                if l is None:
+                    return None
+                if l == Lin.sym(iv):
+                    return 'lo'
+                if l == Lin.sym(iv) * -1 - 1 or l == Lin.sym(nv) - 1 - Lin.sym(iv):
+                    return 'hi'
+                return None
+            c = _less(_one_level(fn, sw[0].args[0], st, pm))
+            X, Y = pos_of(sw[0].args[1]), pos_of(sw[0].args[2])
+            tg = [pos_of(t) for t in st.targets[0].elts] if isinstance(st, ast.Assign) and isinstance(st.targets[0], ast.Tuple) else []
+            if c is not None and tg == ['lo', 'hi'] and {X, Y} == {'lo', 'hi'}:
+                def side(txt):
+                    try:
+                        return pos_of(ast.parse(txt, mode='eval').body)
+                    except SyntaxError:
+                        return None
+                L, R = side(c[0]), side(c[1])
+                # if_swap(c, X, Y): the first result is Y if c else X.  c: key(L) < key(R) (or <=): the first result (stored at the lower
+                # position) is the smaller element iff Y is L and X is R
+                okp = Y is not None and Y == L and X == R
     if okp:
         rep.ok('SN6', fn, loops[0], 'pre-pass: pairs (i, n-1-i) for i < n//2, the smaller element of each pair moved to position i')
     else:
